@@ -6,6 +6,8 @@ import (
 	"os"
 	"sort"
 	"testing"
+
+	"verifharness/vlog"
 	"time"
 )
 
@@ -89,5 +91,24 @@ func TestDump(t *testing.T) {
 	fmt.Printf("shape=%v excluded=%q\n", shape(c), out.Excluded)
 	if out.Fail != nil {
 		fmt.Println(out.Fail.Msg)
+	}
+}
+
+// TestLintFile (development aid): VERIF_LINT=<file.v> prints the diagnostics of one file.
+func TestLintFile(t *testing.T) {
+	p := os.Getenv("VERIF_LINT")
+	if p == "" {
+		t.Skip("VERIF_LINT not set")
+	}
+	raw, err := os.ReadFile(p)
+	if err != nil {
+		t.Fatal(err)
+	}
+	d, pd := vlog.ParseDesignOpts(map[string]string{"t.v": string(raw)}, vlog.ParseOpts{HonorTranslateOff: true})
+	for _, x := range pd {
+		fmt.Println("PARSE", x)
+	}
+	for _, x := range vlog.Lint(d, vlog.LintOpts{}) {
+		fmt.Println("LINT", x)
 	}
 }
